@@ -45,7 +45,7 @@ CLAIMS = {
  "C02": ("E-TABLE.{bdd,bcdd,shortcut,step} + E-WRAP + E-UNITS + E-CACHE: the terminal/base-case table of all 8 BDD connectives and "
          "BCDD's terminal_and/terminal_xor (incl. complement tags) are enumerated over their abstract operand domain and compared "
          "with truth tables; the shortcut prefixes of apply_ite (BDD) and of the ZBDD set operations are interpreted up to the "
-         "cache lookup; every BooleanFunction `x_edge` wrapper (BDD, BCDD, ZBDD; ST and MT) is interpreted symbolically and must "
+         "cache lookup; every BooleanFunction `x_edge` wrapper (BDD, BCDD, ZBDD; ST and MT) is interpreted over abstract operands and must "
          "denote the connective it is named for; default methods forward to their _edge sibling; var/level units and apply-cache "
          "key pairing / hit = miss of the bdd and zbdd rules crates; E-TABLE.step: the recursive (Shannon) step of apply_bin, apply_ite, "
          "apply_not (BDD, BCDD with all complement-tag combinations) and of the ZBDD set operations is interpreted on structured "
@@ -98,7 +98,7 @@ CLAIMS = {
          "impl, move-only hand-over of thread-local free lists, non-blocking cache on the operation path and locked cache during "
          "gc, the gc bracket (try_lock, epoch bump, pre_gc, level sweeps, terminal sweep, post_gc, unlock) on every path of both "
          "managers, cache-entry guards created only after their lock was acquired, the position-blocking protocol of the concurrent "
-         "bubble sort (symbolic execution of all 24 paths of the worker's swap loop), no side effect inside a debug assertion, "
+         "bubble sort (typestate analysis along all 24 paths of the worker's swap loop), no side effect inside a debug assertion, "
          "MT wrappers reach the same algorithm instances. These are necessary conditions (no deadlock by lock order, the "
          "stated happens-before edges exist); equivalence to a sequential execution over schedules is NOT decided.",
          "lock-order graph + atomic-ordering table + MIR dataflow rules", "3.6, 4 C07"),
@@ -126,7 +126,7 @@ CLAIMS = {
          "state validity after failure.",
          "MIR drop-terminator typestate lint + call-site inventory", "3.1, 3.9, 4 C14"),
  "C09": ("E-WRAP + E-TABLE.{reduce,shortcut,step,skip}(zbdd) + E-UNITS + E-CACHE: the BooleanVecSet wrappers and the Boolean view of ZBDDs "
-         "are interpreted symbolically and must denote the set operation they are named for (incl. subset::<VAL> tags and diff "
+         "are interpreted over abstract operands and must denote the set operation they are named for (incl. subset::<VAL> tags and diff "
          "operand order); the zero-suppression reduce functions and the shortcut prefixes of union/intsec/diff/symm_diff are "
          "interpreted against set algebra; units and cache key pairing of the zbdd rules crate; E-TABLE.step: the recursive step of "
          "union/intsec/diff/symm_diff, subset0/subset1/change and apply_ite interpreted under zero-suppressed semantics in every "
